@@ -26,6 +26,7 @@ import (
 	"github.com/nuts-foundation/go-did/did"
 	"github.com/nuts-foundation/go-stoabs"
 	"github.com/nuts-foundation/nuts-node/crypto/hash"
+	"sort"
 )
 
 func writeEventList(tx stoabs.WriteTx, newEventList eventList, id did.DID) error {
@@ -262,8 +263,14 @@ outer:
 		return newDoc, newMeta, nil
 	}
 
-	txRefReader := tx.GetShelfReader(transactionIndexShelf)
+	// merge the unconsumed branches in a fixed order: the merged document (and its hash) must not depend on map iteration order
+	unconsumedRefs := make([]string, 0, len(unconsumed))
 	for k := range unconsumed {
+		unconsumedRefs = append(unconsumedRefs, k)
+	}
+	sort.Strings(unconsumedRefs)
+	txRefReader := tx.GetShelfReader(transactionIndexShelf)
+	for _, k := range unconsumedRefs {
 		st, _ := hash.ParseHex(k)
 		newMeta.SourceTransactions = append(newMeta.SourceTransactions, st)
 		// get old doc by txRef ...
